@@ -82,6 +82,7 @@ def plan(tier):
     conds = [Cond(p3, n, "main", T, "producer: signing input = ASCII(b64(header).b64(payload)) / raw payload for b64=false; key octets; RFC parameter table (%s)" % n) for n in n3]
     conds += [Cond("c01_jws.py", "compact_asym", "main", T * 2, "consumer: RSA/PSS/ECDSA/EdDSA parameter objects equal the RFC 7518/8037/8812 table; fixed-length R||S"),
               Cond("c01_jws.py", "compact_alg_allow", "main", T, "consumer: the signing input is the RECEIVED header segment (any JSON spelling) '.' received payload segment"),
+              Cond("c01_jws.py", "twostep_compact", "main", T, "consumer, two-step API: the signing input is that of the token being validated, not of the last one parsed"),
               Cond("c01_jws.py", "general_json_kf0", "main", T * 2, "consumer, JSON serialization: signing input uses the received protected member"),
               Cond("c01_jws.py", "rfc7797_compact", "main", T, "consumer, b64=false: signing input is header '.' raw payload"),
               Cond("c03_roundtrip.py", "witness_fail", "witness", 120)]
